@@ -534,8 +534,8 @@ Proof.
     + destruct (l_set l) eqn:ES.
       * rewrite <- (map_nth_seq dr (l_buf l)) at 1. rewrite map_map. f_equal.
         apply map_ext_in. intros i Hi. apply in_seq in Hi. symmetry. apply raw_text; auto. lia.
-      * rewrite forallb_forall in HJ. unfold rows_of_cols in *. rewrite map_map. f_equal.
-        apply map_ext_in. intros i Hi. apply zlist_eqb_eq. apply HJ.
+      * rewrite forallb_forall in HJ. unfold rows_of_cols in *. rewrite map_map.
+        apply (f_equal (@concat Z)). apply map_ext_in. intros i Hi. apply zlist_eqb_eq. apply HJ.
         apply in_map_iff. exists i. split; [reflexivity|exact Hi].
     + unfold rows_of_cols. rewrite map_map. f_equal. apply map_ext_in. intros i Hi. symmetry. apply Hrows. exact Hi.
 Qed.
@@ -1189,19 +1189,6 @@ Lemma noncanonical_write_differs :
 Proof.
   exists W_bed3, [], [{| r_fields := [[99%Z]; [48%Z; 49%Z]; [50%Z]]; r_raw := [99; 9; 48; 49; 9; 50; 10]%Z |}], [OWrite 0].
   split; [repeat constructor|]. split; [reflexivity|]. vm_compute. discriminate.
-Qed.
-
-(* SAM: a row whose optional-tags field is empty is written without the separating tab by the modified lazy
-   write (SAMBuffer.join_fields) and with it by the eager writer — on a canonically spelled record "a\t\n" *)
-Definition W_sam : fmt :=
-  {| f_kinds := [KStr; KStr]; f_layout := LSam; f_concat := true; f_nowrite := []; f_ragged := false; f_eager_write_fails := false; f_write_needs_context := false; f_default_hdr := []; f_sid := [] |}.
-Definition W_samrec : rawrec := {| r_fields := [[97%Z]; []]; r_raw := [97; 9; 10]%Z |}.
-Lemma sam_empty_tags_refuted :
-  exists F hdr recs prog, wf F recs /\
-    m_run l_concat F hdr (start recs) prog <> s_run F hdr [rows_of_file F recs; rows_of_file F recs] prog.
-Proof.
-  exists W_sam, [], [W_samrec], [ORep 0 0 [VS [98%Z]]; OWrite 0].
-  split; [split; repeat constructor|]. vm_compute. discriminate.
 Qed.
 
 (* non-vacuity: a six-step program over both registers that satisfies the guard, and what it produces *)
